@@ -942,6 +942,12 @@ def corpus():
                 "wellformed": True, "run": False, "ident": False})
     out.append({"mod": "v21", "cbs": [["iter", [["arg", 0]]]], "ops": [["seqmap", ["S", f32(2)], [], 0]],
                 "wellformed": True, "run": False, "ident": False})
+    # a Loop whose carried value does not keep its type over an iteration (another extent / another rank): one callback call all the same
+    for mod in ("v17", "v19", "v21"):
+        out.append({"mod": mod, "cbs": [["list", [["arg", 1], ["outer", f32(5)]]]], "ops": [["loop", [f32(2)], 0], ["build", 0]],
+                    "wellformed": True, "run": False, "ident": False})
+        out.append({"mod": mod, "cbs": [["list", [["arg", 1], ["outer", f32(2, 2)], ["arg", 3]]]], "ops": [["loop", [f32(2), f32(3)], 0]],
+                    "wellformed": True, "run": False, "ident": False})
     # the same function as both branches, and shared by two constructors
     out.append({"mod": "v18", "cbs": [["list", [["outer", f32()]]]], "ops": [["if", 0, 0], ["build", 0], ["if", 0, 0], ["build", 1], ["singleton", 0]],
                 "wellformed": True, "run": False, "ident": False})
